@@ -105,13 +105,26 @@ Definition prof_root_full (fnh : list N) (p : prof) : bool :=
   let ss := samples_of fnh p in
   forallb (fun k => Z.eqb (wrap64 (child_tot k (pf_rows p) 0)) (wrap64 (full_weight k ss))) (seq 0 (length (pf_st p))).
 
-(* 0 = fine, 1 = only the known empty-stack loss (full root sum fails, partial holds),
-   2 = violation *)
+(* does the hypothesis of tree_conserves (node ids determine the parent on the occurring triples) hold
+   under the real hash for this profile?  0 = not checked (damaged or more than 60 triples), 1 = holds, 2 = fails *)
+Definition pd_fast (T : list (N * N * N)) : bool :=
+  let l := map (fun x => let '(p, f, d) := x in (node_id city16 p f d, p)) T in
+  forallb (fun a => forallb (fun b => implb (N.eqb (fst a) (fst b)) (N.eqb (snd a) (snd b))) l) l.
+Definition prof_hyp (fnh : list N) (p : prof) : Z :=
+  if pf_bad p then 0%Z
+  else let T := triples city16 (samples_of fnh p) in
+       if Nat.leb (length T) 60 then (if pd_fast T then 1%Z else 2%Z) else 0%Z.
+(* 0 = fine, 2 = violation,
+   3 = the known node-id collision INSIDE the profile: two frames with different parents got the same node id under the
+       real hash (the hypothesis of tree_conserves fails for this very profile), per-node conservation is broken, and
+       everything that holds for every hash (stored once, well-formed rows, root sum, sum of the self values:
+       root_sum_any_hash, self_values_add_up) still holds on the observed rows *)
 Definition prof_spec (fnh : list N) (p : prof) : Z :=
   if pf_bad p then 0%Z
   else if negb (prof_stored_once p) then 2%Z
-  else if negb (prof_conserves fnh p && prof_root_partial fnh p) then 2%Z
-  else if prof_root_full fnh p then 0%Z else 1%Z.
+  else if negb (rows_wellformed (length (pf_st p)) (pf_rows p) && prof_root_partial fnh p && prof_root_full fnh p) then 2%Z
+  else if prof_conserves fnh p then 0%Z
+  else if Z.eqb (prof_hyp fnh p) 2 then 3%Z else 2%Z.
 
 (* ------------------------------------------------------------------ the merge / flame graph part *)
 Record mcase := {
@@ -164,6 +177,14 @@ Definition merge_spec (m : mcase) : Z :=
                 end) then 2%Z
   else 0%Z.
 
+(* one node id under two different parents in a merged tree (possible only through a collision of node ids ACROSS
+   profiles: inside one stored tree ids are distinct): Tree.Nodes is keyed by the parent's id alone and BFS stops at the
+   first id it meets twice, so such a tree is drawn truncated *)
+Definition dup_id_across_parents (ns : list (N * list tnode)) : bool :=
+  let out := rows_of ns in
+  negb (ids_distinct (map r_id out)) &&
+  existsb (fun a => existsb (fun b => N.eqb (r_id a) (r_id b) && negb (N.eqb (r_parent a) (r_parent b))) out) out.
+
 (* ------------------------------------------------------------------ whole cases *)
 Record case := {
   c_id : Z;
@@ -188,12 +209,16 @@ Definition case_mismatch (c : case) : bool :=
   merge_mismatch (c_merge c).
 
 (* end to end: the flame graph total of the merged tree = sum of the stored root totals; each profile conserves;
-   the merged tree is the sum.  Result: 0 fine, 1 only the known empty-stack loss, 2 violation *)
+   the merged tree is the sum.  Result: 0 fine, 2 violation, 3 only the known node-id collision inside a profile
+   (prof_spec), 4 only the known node-id collision across profiles (ingested profiles, each fine, whose merged tree
+   holds one node id under two parents) *)
 Definition case_spec (c : case) : Z :=
   let ps := map (prof_spec (c_fnh c)) (c_profs c) in
   let m := merge_spec (c_merge c) in
   if existsb (Z.eqb 2) ps || Z.eqb m 2 then 2%Z
-  else if existsb (Z.eqb 1) ps then 1%Z else 0%Z.
+  else if existsb (Z.eqb 3) ps then 3%Z
+  else if c_e2e c && negb (tree_regular (mc_tree (c_merge c))) && dup_id_across_parents (mc_tree (c_merge c)) then 4%Z
+  else 0%Z.
 
 (* kind "hash" *)
 Record hcase := { h_id : Z; h_a : N; h_b : N; h_h : N }.
@@ -288,15 +313,6 @@ Definition decode_errors (ws : list (list int)) : list Z := decode_errors_from r
 Definition decoded {A} (r : R A) (ws : list (list int)) : list A :=
   flat_map (fun w => match decode r w with Some c => [c] | None => [] end) ws.
 
-(* does the hypothesis of tree_conserves (node ids determine the parent on the occurring triples) hold
-   under the real hash for this profile?  0 = not checked (damaged or more than 60 triples), 1 = holds, 2 = fails *)
-Definition pd_fast (T : list (N * N * N)) : bool :=
-  let l := map (fun x => let '(p, f, d) := x in (node_id city16 p f d, p)) T in
-  forallb (fun a => forallb (fun b => implb (N.eqb (fst a) (fst b)) (N.eqb (snd a) (snd b))) l) l.
-Definition prof_hyp (fnh : list N) (p : prof) : Z :=
-  if pf_bad p then 0%Z
-  else let T := triples city16 (samples_of fnh p) in
-       if Nat.leb (length T) 60 then (if pd_fast T then 1%Z else 2%Z) else 0%Z.
 (* (profiles checked, profiles where it holds) *)
 Definition hyp_summary (ws : list (list int)) : Z * Z :=
   let rs := flat_map (fun c => map (prof_hyp (c_fnh c)) (c_profs c)) (decoded rd_case ws) in
